@@ -12,6 +12,7 @@ import RosedVerif.Model.WrapRefine
 import RosedVerif.Model.WrapFits
 import RosedVerif.Model.BridgeWrap
 import RosedVerif.Model.BridgeOps
+import RosedVerif.Model.OpsStructure
 namespace RosedVerif.Props
 open RosedVerif RosedVerif.Spec
 
@@ -138,5 +139,20 @@ theorem C06_wrapOpts_code_points {V : List (List Int)} (hV : VocabStable V = tru
 /-! non-vacuity -/
 example : Spec.wrapLines ⟨(· == 0), 0, 99⟩ 5 [1, 2, 3, 0, 4, 5, 6, 7, 8, 9, 0, 1] =
     [[1, 2, 3], [4, 5, 6, 7, 99], [8, 9, 0, 1]] := by decide
+
+open RosedVerif.OpsStructure
+
+/-- (6) the public operation, any well-formed context (so: arbitrary code points with the real segmentation, `cxA_Sane`), any editor, non-paragraph mode: the result is the wrapped lines joined by the line separator, plus ONE more separator exactly when the input ended with one — "the result ends with a line separator exactly when the input did" (up to a last wrapped line that itself spells the separator, e.g. separator "-" and a hyphenated break) -/
+theorem C06_trailing_separator {α : Type} [DecidableEq α] (cx : Ctx α) (hs : cx.Sane)
+    (ed : Editor α)
+    (width : Int)
+    (o : Options α)
+    (hpp : (o.withDefaults cx).preservePara = false) :
+    ∃ lines', wrapLines cx ed.text (max width 2) (o.withDefaults cx).lineSep = .ok lines' ∧
+      ed.wrapOpts cx width o =
+        .ok (ed.withText (joinWith (o.withDefaults cx).lineSep lines' ++
+          (if (o.withDefaults cx).lineSep.isSuffixOf ed.text then (o.withDefaults cx).lineSep
+           else []))) :=
+  wrapOpts_structure_sane cx hs ed width o hpp
 
 end RosedVerif.Props
